@@ -47,7 +47,8 @@ def corpus(rnd, n_gen):
             lambda: gen.program_c11(rnd), lambda: gen.program_c18(rnd), lambda: gen.program_c10(rnd)]
     for i in range(n_gen):
         ast = fams[i % len(fams)]()
-        src = lang.to_source(ast)[0]
+        lang.flatten(ast)
+        src = lang.to_source(ast, "typed" if i % 2 else "canon")[0]
         if len(src) < 5000:
             texts.append((f"gen:{i}", src))
     return texts
